@@ -20,12 +20,15 @@ def stmt(f, i, bad=False):
     return "INSERT INTO %s VALUES (%d, %d);" % ("missing_table" if bad else "j", f, i)
 
 
-def write_dir(ws, cfg, fixed=False):
+def write_dir(ws, cfg, fixed=False, extra=False):
+    """extra: the repaired file also gets one more statement at its end (the repair changes the length of the file)"""
     for f, n in enumerate(cfg["nst"], 1):
         lines = []
         d = cfg["dir"][f - 1]
         if d:
             lines.append("-- atlas:txmode %s\n" % d)
+        if fixed and extra and cfg["fail"][0] == f:
+            n += 1
         for i in range(1, n + 1):
             bad = (not fixed) and cfg["fail"] == [f, i]
             lines.append(stmt(f, i, bad))
@@ -178,9 +181,11 @@ def run_scenario(sc):
             if ncmd[0] in dry_at:
                 command(dry=True)
             if cls == "stmt-failed" and not fixed:
-                write_dir(ws, cfg, fixed=True)
+                extra = bool(sc.get("fix_extra"))
+                write_dir(ws, cfg, fixed=True, extra=extra)
                 fixed = True
-                ev.append({"ev": "fix", "c": cid})
+                nst = [n + 1 if (extra and cfg["fail"][0] == f) else n for f, n in enumerate(cfg["nst"], 1)]
+                ev.append({"ev": "fix", "c": cid, "nst": nst})
                 continue
             if cls != "ok":
                 break
